@@ -63,6 +63,7 @@ let enc_num = function
 let cur_bypp = ref 4
 let cur_fmt : pixfmt option ref = ref None
 let fresh0 = ref true
+let fresh5 = ref true      (* ZRLE has a deflate stream of its own *)
 let tight_st = ref [false; false; false; false]
 
 let emit_b (l : z list) = print_string "b "; print_endline (hex_of_bytes l)
@@ -88,7 +89,7 @@ let enc_mode () =
         cur_bypp := int_of_string bpp / 8;
         cur_fmt := Some { f_bpp = zi bpp; f_depth = zi depth; f_be = (be <> "0"); f_rmax = zi rmax; f_gmax = zi gmax;
                           f_bmax = zi bmax; f_rshift = zi rs; f_gshift = zi gs; f_bshift = zi bs };
-        fresh0 := true; tight_st := [false; false; false; false];
+        fresh0 := true; fresh5 := true; tight_st := [false; false; false; false];
         print_endline line
     | ["fbu"; n] -> emit_b (fbu_header (zi n))
     | ["copyrect"; x; y; w; h; sx; sy] ->
@@ -109,7 +110,7 @@ let enc_mode () =
              let f = match !cur_fmt with Some f -> f | None -> failwith "no init" in
              let body = match enc with
                | "zlib" -> let r = ref_zlib f !fresh0 rows in fresh0 := false; r
-               | "zrle" -> let r = ref_zrle ch f !fresh0 (zi w) (zi h) rows in fresh0 := false; r
+               | "zrle" -> let r = ref_zrle ch f !fresh5 (zi w) (zi h) rows in fresh5 := false; r
                | "trle" -> ref_trle ch f (zi w) (zi h) rows
                | "ultra" -> ref_ultra f rows
                | _ -> let (r, st) = ref_tight ch f (zi w) (zi h) rows !tight_st in tight_st := st; r in
